@@ -243,6 +243,46 @@ def _k_system(c) -> CaseInfo:
     return CaseInfo(True, "system")
 
 
+def _k_system_scripted(c) -> CaseInfo:
+    """SystemClock over a scripted OS reading: the module's `time` is replaced by a shim whose time_ns() returns the
+    scripted value (any epoch-relative reading an OS clock can deliver, also before 1970 and with sub-second parts).
+    Asserted only when the implementation actually consulted time_ns() (another exact source would not be scripted)."""
+    import pyoda_time._system_clock as sc
+    from pyoda_time import SystemClock
+
+    reading = c["ns"]
+    if not isinstance(reading, int) or abs(reading) > 10**30:
+        raise InvalidCase
+    real = sc.time
+
+    class Shim:
+        calls = 0
+
+        def time_ns(self):
+            Shim.calls += 1
+            return reading
+
+        def __getattr__(self, name):
+            return getattr(real, name)
+
+    sc.time = Shim()
+    try:
+        try:
+            got = SystemClock.instance.get_current_instant()
+        except (ValueError, OverflowError):
+            got = None
+    finally:
+        sc.time = real
+    if Shim.calls == 0:
+        return CaseInfo(False, "system:scripted-source-not-used")
+    if Z.INST_MIN <= reading <= Z.INST_MAX:
+        need(got is not None, "system-clock/scripted/raised-in-range", f"{reading}")
+        need(Z.ns(got) == reading, "system-clock/scripted", f"OS reading {reading} ns -> {Z.ns(got)} (delta {Z.ns(got) - reading})")
+    else:
+        need(got is None, "system-clock/scripted/out-of-range-not-raised", f"{reading}")
+    return CaseInfo(reading < 0 or reading % 10**9 != 0, "system:scripted")
+
+
 # --- concurrency -----------------------------------------------------------------------------------------------
 
 
@@ -418,6 +458,10 @@ def task_seq(ctx: Ctx, shard: int, n: int) -> None:
         s,
     )
     ctx.case("system", {})
+    # scripted OS readings: around the epoch, sub-second parts of both signs, the ends of the Instant range
+    for base in (0, -1, 1, -10**9, 10**9, -1_500_000_000, 1_709_251_200_123_456_789, -(10**18), Z.INST_MIN, Z.INST_MAX, Z.INST_MIN - 1, Z.INST_MAX + 1):
+        for dl in (0, -1, 1, 999_999_999, -999_999_999, sub_seed(ctx.seed, "c19sys", shard, base) % 10**9):
+            ctx.case("system_scripted", {"ns": base + dl})
 
 
 def task_conc(ctx: Ctx, shard: int, n: int) -> None:
